@@ -427,19 +427,28 @@ def receive_script_crashes(rec0):
     bad = []
     n = 0
     try:
-        for handed_out_before in (0, 1, 2):
+        from skepticoin.scripts import utils as SU
+        real_generate = W.Wallet.generate_keys
+        for handed_out_before in (0, 1, 2, 'no-wallet-yet'):
             for fn in ('wallet.json', 'wallet.json.new'):
                 if os.path.exists(fn):
                     os.remove(fn)
-            w = new_wallet()
-            for i in range(handed_out_before):
-                w.get_annotated_public_key('earlier %d' % i)
             rec0.active = False
-            W.save_wallet(w)
+            if handed_out_before == 'no-wallet-yet':
+                # the very first start in a directory: the command creates the wallet itself (scaled: 30 keys instead of 10,000).
+                # The "previous wallet" is no file at all, so a crash may leave no wallet.json - but never a partial one
+                W.Wallet.generate_keys = lambda self, n, real=real_generate: real(self, min(n, 30))
+            else:
+                w = new_wallet()
+                for i in range(handed_out_before):
+                    w.get_annotated_public_key('earlier %d' % i)
+                W.save_wallet(w)
             out = Out()
             rec = Rec(['wallet.json', 'wallet.json.new'], out)
             out.rec = rec
             crashfs.install(W, rec)
+            if hasattr(SU, 'os'):
+                crashfs.install(SU, rec)
             rec.snap('start')
             try:
                 invoke('alice', out)
@@ -449,6 +458,8 @@ def receive_script_crashes(rec0):
             rec.snap('end')
             snaps = list(rec.snaps)
             rec.active = False
+            W.Wallet.generate_keys = real_generate
+            seen_complete = False
             for label, view, shown in snaps:
                 n += 1
                 for fn, data in view.items():
@@ -459,6 +470,9 @@ def receive_script_crashes(rec0):
                         with open(fn, 'wb') as f:
                             f.write(data)
                 tr = (('receive-script', handed_out_before), ('killed-after', label))
+                if view.get('wallet.json') is None and handed_out_before == 'no-wallet-yet' and not seen_complete:
+                    continue
+                seen_complete = seen_complete or view.get('wallet.json') is not None
                 if view.get('wallet.json') is None:
                     bad.append(('wallet-file-missing-after-crash', "wallet.json does not exist after a crash at %s" % label, tr))
                     continue
@@ -480,7 +494,14 @@ def receive_script_crashes(rec0):
                                 "next invocation shows the same address to someone else although %d unused keys remained" % (
                                     label, len(left.unused_public_keys)), tr))
     finally:
+        W.Wallet.generate_keys = real_generate
         crashfs.install(W, rec0)
+        try:
+            import builtins
+            SU.open = builtins.open
+            SU.os = os
+        except Exception:
+            pass
         rec0.active = True
     best = {}
     for k, what, tr in bad:
